@@ -140,6 +140,33 @@ def run(ctx: Ctx):
     F = fault_effects_of(model)
     handlers = ["_receive_message", "receive_cer", "receive_dwr", "receive_dpr",
                 "_receive_app_request"]
+    # the error handler of _receive_message answers 5012 only while the request is unanswered:
+    # a request handler of an application is arbitrary code that may send its answer and fail
+    # afterwards, and so may bookkeeping that runs after an answer has been queued
+    rmf = nc.methods.get("_receive_message")
+    handler_guarded = False
+    if rmf is not None:
+        grm = cfg_of(rmf)
+        atrm = Atomizer(model, rmf.module, nc)
+        hs = [n for n in grm.nodes if any(A.call_name(c) == "self.send_message" for c in n.calls())
+              and any(isinstance(x, ast.ExceptHandler) for x in n.lexical)] \
+            if hasattr(grm.nodes[0], "lexical") else []
+        if not hs:
+            # send nodes lexically inside an except clause of the function
+            inside = {id(x) for h in ast.walk(rmf.node) if isinstance(h, ast.ExceptHandler) for x in ast.walk(h)}
+            hs = [n for n in grm.nodes if n.ast is not None and id(n.ast) in inside
+                  and any(A.call_name(c) == "self.send_message" for c in n.calls())]
+        cons_h = "_receive_message:handler-answers-unanswered-only"
+        ctx.inst(cons_h)
+        handler_guarded = bool(hs) and all(any(
+            f_[1] == "in-expr" and f_[2] == "self._origin_waiting_answer" and f_[3] is True
+            for f_ in must_facts(grm, atrm, h)) for h in hs)
+        if hs and not handler_guarded:
+            ctx.fail(cons_h, grm.loc(hs[0]), "the error handler of _receive_message sends its 5012 answer "
+                     "without checking that the request is still unanswered (its record in "
+                     "_origin_waiting_answer is removed when an answer goes out): a request handler "
+                     "that sends its answer and then raises, or bookkeeping that fails after an answer "
+                     "has been queued, makes the node transmit a second answer for the request")
     for nm in handlers:
         f = nc.methods.get(nm)
         if f is None:
@@ -156,7 +183,9 @@ def run(ctx: Ctx):
                 ctx.fail(cons, g.loc(second[0]), f"in {f.qualname} a second send_message is reachable "
                          f"after the answer sent at {g.loc(s)}: two answers for one request",
                          steps=[f"{g.loc(s)}: {s.text(80)}", f"{g.loc(second[0])}: {second[0].text(80)}"])
-            if nm != "_receive_message":
+            if nm != "_receive_message" and not handler_guarded:
+                # (only where the handler is not guarded: with the guard an exception after the
+                # send cannot produce a second answer)
                 raising = [t for t in after if t.raises and t.kind != "handler"
                            and not all(d.kind == "handler" and any(isinstance(x, ast.Try) and x in t.lexical
                                                                    for x in [d.ast] if False)
@@ -340,6 +369,8 @@ def run(ctx: Ctx):
     route_answer_discipline(ctx, "C07-R6")
     from .common_node import waiting_table_keys
     waiting_table_keys(ctx, "C07-R6b")
+    from .common_node import stat_counters_synchronised
+    stat_counters_synchronised(ctx, "C07-R8")
     from . import c20
     ctx.include(c20.run, {"C20-R2"}, "C07-R7",
                 "an answer built from a request has the request bit cleared and mirrors its "
